@@ -108,6 +108,10 @@ def mutate(rng, toks, kind=None):
     elif kind == "corrupt":
         t, c = toks[i]
         toks[i] = (t, rng.choice(["", "!!!", c + "é", "X" * 80, c[: max(0, len(c) // 2)], "/" + c, c + "\n" + c]))
+    elif kind == "morelines":
+        # one to three further lines on a content (a parser that reads a fixed number of lines must reject, not drop them)
+        t, c = toks[i]
+        toks[i] = (t, c + "".join("\nEXTRA LINE %d" % (n + 1) for n in range(rng.choice([1, 2, 3]))))
     elif kind == "dupseq":
         # duplicate a run of fields (a sequence occurrence) starting at a 21 / 20 / 61 / 12
         starts = [k for k, (t, c) in enumerate(toks) if t in ("21", "20", "61", "12", "23", "25")]
